@@ -12,10 +12,13 @@ func bit(b []byte, i int) bool {
 }
 
 // CheckConservation is the C09 monitor, evaluated at a quiescent cut:
-//   available[i] == #{connected peers whose actor bitmap has i}
-//   inFlight[b]  == #{peers with b queued or requested}        (no web-seed fetch active)
+//
+//	available[i] == #{connected peers whose actor bitmap has i}
+//	inFlight[b]  == #{peers with b queued or requested}        (no web-seed fetch active)
+//
 // and, against the remotes' own independent view,
-//   available[i] == #{live honest remotes advertising i},  inFlight[b] >= #{remotes holding a request for b}.
+//
+//	available[i] == #{live honest remotes advertising i},  inFlight[b] >= #{remotes holding a request for b}.
 func (tr *Tor) CheckConservation(where string) {
 	sw := tr.Sw
 	if !tr.T.InfoComplete() || RaceEnabled {
